@@ -258,6 +258,7 @@ SEW_CLASSES = {"1": "sew/unsew topology differs from the corresponding link/unli
                "4": "split cells do not carry the split of the old value", "5": "value left under an identifier that stopped designating a cell",
                "6": "call succeeded although the attribute law rejects the merge/split"}
 PROPS["C04"] = dict(
+    translators=True,
     level="proof",
     level_text="Coq theorems C04_{one,two}_{sew,unsew}_topology: for EVERY store, dart pair, law and fault position a sew / unsew "
                "that terminates normally has exactly the effect of the corresponding link / unlink on all images and removal flags "
@@ -627,6 +628,7 @@ SEW3_CLASSES = {"1": "topology differs from the corresponding link", "2": "untou
                 "5": "value left under an identifier that designates no cell", "6": "accepted although the update law rejects",
                 "7": "C05:unsew-refused-on-embedded-mesh"}
 PROPS["C05"] = dict(
+    translators=True,
     level="translation_validation",
     level_text="proved for all inputs: a refused sew publishes nothing, and the topology clause -- on every store a 3D sew / unsew of "
                "dimension 1, 2, 3 that terminates normally changes images and removal flags exactly as the link / unlink does "
@@ -731,7 +733,8 @@ GRIS_CLASSES = {"1": "refused or crashed on a closed, consistently oriented, sim
                 "13": "a point of interest is not a vertex anchored to a node", "14": "edge or face anchored to the wrong kind of entity",
                 "15": "vertex anchored to the wrong kind of entity", "16": "faces connected without crossing a curve have different surfaces",
                 "17": "boundary edges not separated by a node have different curves",
-                "18": "C16:dropped-corner-chords-cross"}
+                "18": "C16:dropped-corner-chords-cross",
+                "19": "two different boundary curves carry the same curve identifier"}
 VALIDATOR_TRUST = PROPS["C01"]["trusted"][:3] + ["vtkio (reader of the geometry file) is exercised, not modelled",
                                                  "the kernel itself is not modelled: only its outputs are validated"]
 PROPS["C16"] = dict(
@@ -757,7 +760,7 @@ PROPS["C17"] = dict(
                "classify_capture, for the same seeded boundaries with the clip mode that keeps the bounded region: every vertex / edge / "
                "face of in-use darts anchored; each PoI a vertex anchored to a node; boundary edges on curves, interior edges and faces "
                "on surfaces; boundary vertices on nodes or curves, interior vertices on surfaces; adjacent faces share their surface; "
-               "consecutive boundary edges not separated by a node share their curve. Proved: meaning of the anchor-kind test "
+               "consecutive boundary edges not separated by a node share their curve, and edges carrying one curve identifier lie on one stretch. Proved: meaning of the anchor-kind test "
                "(C17_has_dim_spec). The kernels are not modelled (partial, see DESIGN.md C17)",
     technique="Coq-defined validator applied to every capture + classification run",
     families=[Family("capture", "gris", lambda tier, seed: ["--mode", "capture", "--cases", {"quick": "300", "thorough": "5000"}[tier]], None,
